@@ -18,7 +18,11 @@ VARIABLE l
 \*   suiteOf : id -> suite cell of every job in flight
 \*   plan    : id -> stage submissions still owed by that job (sequence of <<"cipher"|"hash", row>>)
 VARIABLES suiteOf, plan
-tvars == <<vars, l, suiteOf, plan>>
+\* cfail : <<manager, id>> of jobs in flight whose CUSTOM cipher/hash call-back reports failure; such a job
+\*         finishes (in the call that runs the call-back) and is handed back in order like any other, with
+\*         status INTERNAL_ERROR instead of COMPLETED
+VARIABLE cfail
+tvars == <<vars, l, suiteOf, plan, cfail>>
 
 D == INSTANCE Dispatch
 
@@ -27,6 +31,10 @@ M(t) == IF "m" \in DOMAIN t THEN t.m ELSE 0
 IsEvent(e) == l <= Len(Tr) /\ Tr[l].e = e /\ l' = l + 1
 
 StCode(st) == IF st = "done" THEN 3 ELSE IF st = "inv" THEN 4 ELSE 0
+\* jobs announced as failing by this very event (SubmitJob: cfail > 0; SubmitBurst: cfails[i] > 0; bit 0 cipher, bit 1 hash call-back)
+NewFails(t, m) ==
+    (IF "cfail" \in DOMAIN t /\ t.cfail > 0 /\ t.valid = 1 THEN {<<m, t.id>>} ELSE {})
+    \cup (IF "cfails" \in DOMAIN t /\ t.rejected = 0 THEN { <<m, t.ids[i]>> : i \in { k \in 1 .. Len(t.ids) : t.cfails[k] > 0 } } ELSE {})
 
 \* Which observations this run insists on (one trace format serves several properties; a check for
 \* property P only judges P's conjuncts, so that a defect is reported under the right property):
@@ -50,7 +58,9 @@ Observed(t, m) ==
     /\ last'.ret = t.ret              \* exactly these jobs were handed back, in this order
     /\ Len(t.rst) = Len(t.ret)
     /\ \A i \in 1 .. Len(t.ret) :     \* with exactly the status the model says they have
-          t.rst[i] = StCode(last'.rst[i])
+          t.rst[i] = (IF last'.rst[i] = "done" /\ <<m, t.ret[i]>> \in cfail \cup NewFails(t, m) THEN 5
+                      ELSE StCode(last'.rst[i]))
+    /\ cfail' = (cfail \cup NewFails(t, m)) \ { <<m, t.ret[i]>> : i \in 1 .. Len(t.ret) }
     /\ Has("out") => t.b_out = 0
     /\ Has("ref") => t.b_ref = 0       \* every handed-back job of the judged class equals the reference interpretation
     /\ Has("mem") => t.b_mem = 0
@@ -111,14 +121,14 @@ TraceInit ==
     /\ next = [m \in Mgr |-> 0]      \* the first Reset event supplies the real value (must precede
                                       \* Init so that its `next \in ...' is a test, not an enumeration)
     /\ Init
-    /\ suiteOf = <<>> /\ plan = <<>>
+    /\ suiteOf = <<>> /\ plan = <<>> /\ cfail = {}
 
 \* a new execution starts on a freshly allocated and initialised manager
 TReset ==
     /\ IsEvent("Reset")
     /\ LET t == Tr[l] m == M(t) IN
        /\ InitMgr(m, t.next, 0)
-       /\ suiteOf' = <<>> /\ plan' = <<>>
+       /\ suiteOf' = <<>> /\ plan' = <<>> /\ cfail' = { x \in cfail : x[1] # m }
 
 TGetNextJob ==
     /\ IsEvent("GetNextJob")
@@ -129,7 +139,7 @@ TGetNextJob ==
        /\ Has("errno") => (errno'[m] = t.errno /\ gerrno' = t.gerrno)
        /\ Has("abi") => t.abi = 0
        /\ earliest[m] = t.earliest /\ next[m] = t.next
-       /\ UNCHANGED <<suiteOf, plan>>
+       /\ UNCHANGED <<suiteOf, plan, cfail>>
 
 TSubmitJob ==
     /\ IsEvent("SubmitJob")
@@ -161,7 +171,7 @@ TQueueSize ==
        /\ t.done = <<>>
        /\ QueueSize(m)
        /\ t.q = QSize(m)
-       /\ UNCHANGED <<suiteOf, plan>>
+       /\ UNCHANGED <<suiteOf, plan, cfail>>
        /\ earliest'[m] = t.earliest /\ next'[m] = t.next
        /\ Has("errno") => (errno'[m] = t.errno /\ gerrno' = t.gerrno)
        /\ Has("abi") => t.abi = 0
@@ -173,7 +183,7 @@ TGetNextBurst ==
        /\ GetNextBurst(m, t.n)
        /\ last'.slots = t.slots
        /\ t.clash = 0
-       /\ UNCHANGED <<suiteOf, plan>>
+       /\ UNCHANGED <<suiteOf, plan, cfail>>
        /\ earliest'[m] = t.earliest /\ next'[m] = t.next
        /\ Has("errno") => (errno'[m] = t.errno /\ gerrno' = t.gerrno)
        /\ Has("abi") => t.abi = 0
@@ -214,14 +224,14 @@ TEnd ==
        /\ t.abandoned_touched = 0               \* no residue: buffers of dropped jobs are never written again
        /\ Has("mem") => t.canary = 0
        /\ Has("abi") => t.abi_viol = 0
-    /\ UNCHANGED <<vars, suiteOf, plan>>
+    /\ UNCHANGED <<vars, suiteOf, plan, cfail>>
 
 \* C15: init_mb_mgr_*() on a manager in any state, possibly with jobs in flight
 TReinit ==
     /\ IsEvent("Reinit")
     /\ LET t == Tr[l] m == M(t) IN
        /\ InitMgr(m, t.next, 0)
-       /\ suiteOf' = <<>> /\ plan' = <<>>
+       /\ suiteOf' = <<>> /\ plan' = <<>> /\ cfail' = { x \in cfail : x[1] # m }
        /\ t.earliest = -1                       \* the empty state ...
        /\ t.qsz = 0 /\ t.flush_null = 1 /\ t.getc_null = 1   \* ... nothing to flush or collect
        /\ t.errno = 0
@@ -235,7 +245,7 @@ TReattach ==
        /\ Reattach(m)
        /\ t.same_ptr = 1 /\ t.done = <<>>
        /\ earliest'[m] = t.earliest /\ next'[m] = t.next /\ t.errno = 0
-       /\ UNCHANGED <<suiteOf, plan>>
+       /\ UNCHANGED <<suiteOf, plan, cfail>>
 
 \* C16: a forked process re-attached to the (copy of the) manager, flushed and verified every in-flight
 \* job (order, completion, run-alone result) and found the manager usable: child_rc = 0
@@ -244,9 +254,9 @@ TForkReattach ==
     /\ LET t == Tr[l] m == M(t) IN
        /\ t.child_rc = 0
        /\ t.inflight = QSize(m)
-    /\ UNCHANGED <<vars, suiteOf, plan>>
+    /\ UNCHANGED <<vars, suiteOf, plan, cfail>>
 
-TFreshTwin == IsEvent("FreshTwin") /\ UNCHANGED <<vars, suiteOf, plan>>
+TFreshTwin == IsEvent("FreshTwin") /\ UNCHANGED <<vars, suiteOf, plan, cfail>>
 
 TraceNext ==
     \/ TReinit \/ TReattach \/ TForkReattach \/ TFreshTwin
